@@ -27,12 +27,13 @@ pub mod c37;
 
 fn one(_: Tier) -> usize { 1 }
 fn four(_: Tier) -> usize { 4 }
+fn eight(_: Tier) -> usize { 8 }
 
 pub fn all() -> Vec<CheckDef> {
     vec![
         CheckDef { id: "C01", shards: one, run: c01::run_c01, replay: Some(c01::replay) },
         CheckDef { id: "C02", shards: one, run: c01::run_c02, replay: Some(c01::replay) },
-        CheckDef { id: "C03", shards: one, run: c03::run, replay: Some(c03::replay) },
+        CheckDef { id: "C03", shards: eight, run: c03::run, replay: Some(c03::replay) },
         CheckDef { id: "C04", shards: one, run: c05::run_c04, replay: Some(c05::replay_c04) },
         CheckDef { id: "C05", shards: one, run: c05::run_c05, replay: Some(c05::replay_c05) },
         CheckDef { id: "C06", shards: one, run: c06::run, replay: Some(c06::replay) },
